@@ -60,7 +60,7 @@ func optStr(w *W, r *rand.Rand, max int) {
 
 func int32s(w *W, r *rand.Rand, max int) {
 	n := r.Intn(max + 1)
-	w.I32(int32(n))
+	w.Cnt(int32(n))
 	for i := 0; i < n; i++ {
 		w.I32(int32(r.Intn(5)))
 	}
@@ -68,7 +68,7 @@ func int32s(w *W, r *rand.Rand, max int) {
 
 func brokers(w *W, r *rand.Rand) {
 	n := r.Intn(4)
-	w.I32(int32(n))
+	w.Cnt(int32(n))
 	for i := 0; i < n; i++ {
 		w.I32(int32(i + 1))
 		w.Str("h" + str(r, 6))
@@ -80,7 +80,7 @@ func brokers(w *W, r *rand.Rand) {
 func metaTopics(v int16, w *W, r *rand.Rand, sh *Shape) {
 	n := 1 + r.Intn(3)
 	own := r.Intn(n)
-	w.I32(int32(n))
+	w.Cnt(int32(n))
 	for i := 0; i < n; i++ {
 		w.Err()
 		if i == own {
@@ -90,7 +90,7 @@ func metaTopics(v int16, w *W, r *rand.Rand, sh *Shape) {
 		}
 		w.I8(int8(r.Intn(2)))
 		np := r.Intn(3)
-		w.I32(int32(np))
+		w.Cnt(int32(np))
 		for p := 0; p < np; p++ {
 			w.Err()
 			w.I32(int32(p))
@@ -106,7 +106,7 @@ func metaTopics(v int16, w *W, r *rand.Rand, sh *Shape) {
 
 func topicPartArr(w *W, r *rand.Rand, sh *Shape, part func()) {
 	nt := 1 + r.Intn(2)
-	w.I32(int32(nt))
+	w.Cnt(int32(nt))
 	for t := 0; t < nt; t++ {
 		if t == 0 {
 			w.Str(sh.Topic)
@@ -114,7 +114,7 @@ func topicPartArr(w *W, r *rand.Rand, sh *Shape, part func()) {
 			w.Str("o" + str(r, 4))
 		}
 		np := 1 + r.Intn(2)
-		w.I32(int32(np))
+		w.Cnt(int32(np))
 		for p := 0; p < np; p++ {
 			part()
 		}
@@ -129,7 +129,7 @@ var Ops = []*Op{
 		Build: func(v int16, w *W, r *rand.Rand, sh *Shape) {
 			w.Err()
 			n := r.Intn(5)
-			w.I32(int32(n))
+			w.Cnt(int32(n))
 			for i := 0; i < n; i++ {
 				w.I16(int16(i))
 				w.I16(0)
@@ -139,9 +139,9 @@ var Ops = []*Op{
 		Call: func(c *kafka.Conn, sh *Shape) (string, error) { _, err := c.ApiVersions(); return "", err }},
 	{Name: "listOffsets", Key: 2, Versions: []int16{1},
 		Build: func(v int16, w *W, r *rand.Rand, sh *Shape) {
-			w.I32(1)
+			w.Cnt(1)
 			w.Str(sh.Topic)
-			w.I32(1)
+			w.Cnt(1)
 			w.I32(0)
 			w.Err()
 			w.I64(r.Int63n(1 << 40))
@@ -180,9 +180,9 @@ var Ops = []*Op{
 		Call: func(c *kafka.Conn, sh *Shape) (string, error) { _, err := c.Controller(); return "", err }},
 	{Name: "produce", Key: 0, Versions: []int16{2, 3, 7},
 		Build: func(v int16, w *W, r *rand.Rand, sh *Shape) {
-			w.I32(1)
+			w.Cnt(1)
 			w.Str(sh.Topic)
-			w.I32(1)
+			w.Cnt(1)
 			w.I32(0)
 			w.Err()
 			w.I64(r.Int63n(1 << 40))
@@ -203,9 +203,9 @@ var Ops = []*Op{
 				w.Err()
 				w.I32(int32(r.Intn(100))) // session id
 			}
-			w.I32(1)
+			w.Cnt(1)
 			w.Str(sh.Topic)
-			w.I32(1)
+			w.Cnt(1)
 			w.I32(0)
 			w.Err()
 			w.I64(sh.HWM)
@@ -306,7 +306,7 @@ var Ops = []*Op{
 				w.I32(int32(r.Intn(100)))
 			}
 			n := 1 + r.Intn(3)
-			w.I32(int32(n))
+			w.Cnt(int32(n))
 			for i := 0; i < n; i++ {
 				w.Str("t" + str(r, 4))
 				w.Err()
@@ -324,7 +324,7 @@ var Ops = []*Op{
 				w.I32(int32(r.Intn(100)))
 			}
 			n := 1 + r.Intn(3)
-			w.I32(int32(n))
+			w.Cnt(int32(n))
 			for i := 0; i < n; i++ {
 				w.Str("t" + str(r, 4))
 				w.Err()
@@ -349,7 +349,7 @@ var Ops = []*Op{
 			w.Str("m" + str(r, 4))
 			w.Str("m" + str(r, 4))
 			n := r.Intn(3)
-			w.I32(int32(n))
+			w.Cnt(int32(n))
 			for i := 0; i < n; i++ {
 				w.Str("m" + str(r, 4))
 				w.Bytes([]byte(str(r, 6)))
@@ -371,7 +371,7 @@ var Ops = []*Op{
 			w.I32(int32(r.Intn(100)))
 			w.Err()
 			n := r.Intn(3)
-			w.I32(int32(n))
+			w.Cnt(int32(n))
 			for i := 0; i < n; i++ {
 				w.Str("g" + str(r, 4))
 				w.Str("consumer")
@@ -389,7 +389,7 @@ var Ops = []*Op{
 		Build: func(v int16, w *W, r *rand.Rand, sh *Shape) {
 			w.Err()
 			n := r.Intn(3)
-			w.I32(int32(n))
+			w.Cnt(int32(n))
 			for i := 0; i < n; i++ {
 				w.Str("M" + str(r, 5))
 			}
